@@ -12,6 +12,7 @@ open XrsVerif XrsVerif.AStar
 variable {F : Type} [Fl F]
 set_option linter.unusedSectionVars false
 set_option linter.unusedVariables false
+set_option linter.unusedSimpArgs false
 
 /-- `np.inf` as the translator spells it -/
 def flInf : F := Fl.div (Fl.lit 1 1) (Fl.lit 0 1)
